@@ -261,6 +261,94 @@ def _tuple_flag_is_eq(prog, g, atom):
     return False
 
 
+def check_container_indexed(chk, prog):
+    """val_index (element value -> ids of the containers mentioning it) drives incremental container rebuilds and the
+    dirty-id closure: a container registered under an id must be indexed under that id for every element."""
+    from .join_common import cross_origins, atom_path
+    R = chk.rule("R-CONTAINER-INDEXED", "ContainerEnv: whenever a container is registered under an id V (to_container.insert(V, (hash, shard)) — first interning, re-insertion into a vacant "
+                 "slot, or a collision whose merged id differs from the old one), every path to the function's return or to the next loop iteration runs the loop "
+                 "`for e in container.iter() { val_index.entry(e).or_default().insert(V) }` over that container (or undoes the registration with to_container.remove(V)). "
+                 "Pure re-keys of an in-place container (the tuple comes from to_container.remove) are listed, not judged")
+    n = 0
+    rekeys = 0
+    for f in prog.lib_fns(["egglog_core_relations"]):
+        root = f.root or f.name
+        if not root.startswith(CE + "::"):
+            continue
+
+        def on_field(h, operand, field):
+            return any(atom_path(a) and atom_path(a)[-1:] == (field,) for _, a in cross_origins(prog, h, operand))
+        sites = [c for c in f.calls if c.p.endswith("DashMap::insert") and len(c.args) >= 3 and on_field(f, c.args[0], "to_container")]
+        if not sites:
+            continue
+        idx_inserts = []
+        for c in f.calls:
+            if c.p.endswith("IndexSet::insert") or c.p.endswith("IndexSet::insert_full"):
+                ra = f.origins(c.args[0])
+                if any(a[0] == "call" and a[1].endswith("Entry::or_default") for a in ra):
+                    # entry(..) on val_index
+                    ok_recv = False
+                    for a in ra:
+                        if a[0] == "call":
+                            od = f.call_at(a[2])
+                            for b in f.origins(od.args[0]):
+                                if b[0] == "call" and b[1].endswith("DashMap::entry"):
+                                    en = f.call_at(b[2])
+                                    if on_field(f, en.args[0], "val_index"):
+                                        ok_recv = True
+                    if ok_recv:
+                        idx_inserts.append(c)
+        loops = []
+        for c in f.calls:
+            if (c.p.endswith("Iterator>::next") or c.p.endswith("Iterator::next")) and any(a[0] == "call" and a[1].endswith("ContainerValue::iter") for a in f.origins(c.args[0])):
+                sw = c.target
+                if sw is not None and f.term(sw)[0] == "switch":
+                    some = [tb for v, tb in f.term(sw)[2] if v == "1"]
+                    if some:
+                        loops.append((c, some[0]))
+        for c in sites:
+            tup = f.origins(c.args[2])
+            if any(a[0] == "call" and a[1].endswith("DashMap::remove") for a in tup):
+                rekeys += 1
+                continue
+            n += 1
+            V = f.origins(c.args[1])
+            good = set()
+            for (nx, some) in loops:
+                ins = {i.bb for i in idx_inserts if f.origins(i.args[1]) & V}
+                if not ins:
+                    continue
+                r = {some} | f.reach_avoiding([some], ins) if some not in ins else set()
+                if nx.bb not in r:
+                    good.add(nx.bb)
+            undo = {u.bb for u in f.calls if u.p.endswith("DashMap::remove") and on_field(f, u.args[0], "to_container") and (f.origins(u.args[1]) & V)}
+            doms = f.dom.get(c.bb, set())
+            bad = None
+            seen = set()
+            stack = [c.target] if c.target is not None else []
+            while stack:
+                x = stack.pop()
+                if x in seen or x in good or x in undo:
+                    continue
+                seen.add(x)
+                if f.term(x)[0] == "ret":
+                    bad = "the function returns"
+                    break
+                if x in doms:
+                    bad = "the next iteration starts"
+                    break
+                stack.extend(f.succ[x])
+            arm = ""
+            for g in guards(f, c.bb):
+                if "variant" in g:
+                    arm = ":" + "/".join(g["variant"])
+            chk.judge(bad is None, R, f"{root}:register{arm}{'@closure' if f.kind == 'closure' else ''}", "a container registered under an id is indexed under it for every element",
+                      f"a container is registered under an id but {bad} on a path that does not index its elements under that id in val_index: a later incremental rebuild "
+                      "(or dirty-id closure) of one of its elements does not find the container, which keeps a non-canonical element", c.loc)
+    chk.floor(R, n, 5, "container registration sites (get_or_insert, insert_owned x2, parallel re-insert x2)")
+    chk.extra["container_rekey_sites_not_judged"] = rekeys
+
+
 def check_rebuild_contents(chk, prog):
     R = chk.rule("R-REBUILD-CONTENTS", "every `impl ContainerValue`: rebuild_contents passes its stored values through ValueRebuilder::{rebuild_val, rebuild_slice} and returns a computed "
                  "flag (never a constant on every path)")
@@ -296,6 +384,7 @@ def run(chk, prog, tier):
     check_order(chk, prog)
     check_dirty_closure(chk, prog)
     check_siblings(chk, prog)
+    check_container_indexed(chk, prog)
     check_rebuild_contents(chk, prog)
     R = chk.rule("R-MIN", "the container merge closure returns min(old,new) of the ids it unions")
     mc.check_bridge_min(chk, prog, R)
